@@ -304,7 +304,7 @@ func (c *Ctx) Control(fired bool) {
 func (c *Ctx) Violation(sig, caseKey string, desc, want, got interface{}) {
 	c.mu.Lock()
 	defer c.mu.Unlock()
-	if c.Flavour != "" && c.Flavour != "plain" {
+	if c.Flavour != "" && c.Flavour != "plain" && c.Flavour != "cover" { // the cover build is the default build plus counters: same signatures
 		sig += "@" + c.Flavour
 	}
 	c.violBy[sig]++
